@@ -997,3 +997,139 @@ def c19_pred_job(job) -> List[Dict[str, Any]]:
                 out.append(_inst("R19.6", "HOLDS" if s else "UNDECIDED" if s is None else "VIOLATED", other, op, c,
                                  "" if s else f"{other.short} and {ref.short} compute different {op} results for the same ratings and parameters"))
     return out
+
+
+def c05_job(job) -> List[Dict[str, Any]]:
+    """R5.4: the mu changes of two members of one team are in the ratio of their tau-inflated variances
+    (dmu_a * (sg_b^2 + tau^2) == dmu_b * (sg_a^2 + tau^2) as rational functions), on every ordering of the small games."""
+    idx, tier = job
+    prog = Program()
+    roles = prog.roles()[idx]
+    out = []
+    tau2 = p_mul(p_atom(("param", "g.tau")), p_atom(("param", "g.tau")))
+    for sizes in _sizes(tier):
+        if max(sizes) < 2:
+            continue
+        for lv in weak_orderings(len(sizes)):
+            desc = f"members of a team move in proportion to their own inflated variance: team sizes {sizes}, {describe(lv)}"
+            try:
+                run = run_rate(prog, roles, sizes, lv)
+                bad = run.ok()
+            except Exception as e:  # noqa: BLE001
+                bad = f"abstract evaluation failed: {type(e).__name__}: {e}"
+            if bad:
+                out.append(_inst("R5.4", "UNDECIDED", roles, "rate", desc, bad))
+                continue
+            verdict, msg = "HOLDS", ""
+            for i, sz in enumerate(sizes):
+                for j in range(1, sz):
+                    a, b = poly_of(run.field((i, 0), "mu")), poly_of(run.field((i, j), "mu"))
+                    if a is None or b is None:
+                        verdict, msg = "UNDECIDED", "a stored mu has no term"
+                        break
+                    da, db = p_add(a, p_atom(mu_atom(i, 0)), -1), p_add(b, p_atom(mu_atom(i, j)), -1)
+                    va = p_add(p_mul(p_atom(sg_atom(i, 0)), p_atom(sg_atom(i, 0))), tau2)
+                    vb = p_add(p_mul(p_atom(sg_atom(i, j)), p_atom(sg_atom(i, j))), tau2)
+                    z = is_zero(p_add(p_mul(da, vb), p_mul(db, va), -1))
+                    if z is None:
+                        verdict, msg = "UNDECIDED", "the cross product could not be normalised"
+                    elif not z:
+                        verdict, msg = "VIOLATED", f"players 0 and {j} of team {i} do not move in the ratio of their inflated variances (sigma^2 + tau^2)"
+                        break
+                if verdict == "VIOLATED":
+                    break
+            out.append(_inst("R5.4", verdict, roles, "rate", desc, msg))
+    return out
+
+
+def _rename_atoms(mapping: Dict[str, str]):
+    def fn(s):
+        if isinstance(s, tuple) and len(s) == 2 and s[0] == "param" and s[1] in mapping:
+            return ("param", mapping[s[1]])
+        return s
+
+    return fn
+
+
+def _state_terms_mapped(run: GameRun, atom_map) -> Optional[Dict[Tuple[int, int], Tuple[Poly, Poly]]]:
+    out = {}
+    for who in run.players:
+        vals = []
+        for name in ("mu", "sigma"):
+            v = run.field(who, name)
+            p = to_poly(v.sym, atom_map) if isinstance(v, Num) and v.sym is not None else None
+            if p is None:
+                return None
+            vals.append(p)
+        out[who] = tuple(vals)
+    return out
+
+
+def run_rate_model(prog, roles, sizes, levels, *, tau_arg: bool, limit_arg: Optional[bool], limit_model: Optional[bool]) -> GameRun:
+    """rate on an explicit game with the options given per call or left to the model (tau atom: g.tau per call, model.tau on the model)."""
+    w = World(prog, roles, Box())
+    I = w.I
+    I.number_locals = True
+    I.explicit = True
+    common = prog.modules.get(f"{prog.package}.models.weng_lin.common")
+    if common is not None:
+        I.opaque_funcs = {common.funcs[n].fq for n in CORRECTIONS if n in common.funcs}
+    overrides = {}
+    if limit_model is not None:
+        overrides["limit_sigma"] = Bool(bool(limit_model), frozenset(), None)
+    m = w.make_model(custom_gamma=False, overrides=overrides or None)
+    game_, players = build_game(w, sizes)
+    kwargs: Dict[str, Any] = {"ranks": build_values(w, levels, list(range(len(sizes))))}
+    if tau_arg:
+        kwargs["tau"] = Num(kinds=frozenset({"float"}), sym=("param", "g.tau"))
+    if limit_arg is not None:
+        kwargs["limit_sigma"] = Bool(bool(limit_arg), frozenset(), None)
+    I.events.clear()
+    I.raises.clear()
+    with sym_cap(TERM_CAP):
+        res = w.call(m, "rate", [game_], kwargs)
+    return GameRun(roles.short, tuple(sizes), tuple(range(len(sizes))), w, players, res, list(I.undecided), list(I.raises), bool(w.state.bottom))
+
+
+def c15_job(job) -> List[Dict[str, Any]]:
+    """R15.6: rate(tau=t) stores the terms that a model built with tau=t stores without the argument (model.tau renamed to t);
+    with limit_sigma off; and the result positions and the posterior mu agree between rate(limit_sigma=b) and Model(limit_sigma=b)."""
+    idx, tier = job
+    prog = Program()
+    roles = prog.roles()[idx]
+    out = []
+    ren = _rename_atoms({"model.tau": "g.tau"})
+    for sizes in [(1, 1), (2, 1), (1, 2, 1)]:
+        for lv in weak_orderings(len(sizes)):
+            for b in (False, True):
+                desc = f"rate(tau=t, limit_sigma={b}) == Model(tau=t, limit_sigma={b}).rate(): team sizes {sizes}, {describe(lv)}"
+                try:
+                    ra = run_rate_model(prog, roles, sizes, lv, tau_arg=True, limit_arg=b, limit_model=(not b))
+                    rb = run_rate_model(prog, roles, sizes, lv, tau_arg=False, limit_arg=None, limit_model=b)
+                    bad = ra.ok() or rb.ok()
+                except Exception as e:  # noqa: BLE001
+                    bad = f"abstract evaluation failed: {type(e).__name__}: {e}"
+                if bad:
+                    out.append(_inst("R15.6", "UNDECIDED", roles, "rate", desc, bad))
+                    continue
+                verdict, msg = "HOLDS", ""
+                for who in ra.players:
+                    for name in ("mu", "sigma"):
+                        va, vb = ra.field(who, name), rb.field(who, name)
+                        pa = to_poly(va.sym, ren) if isinstance(va, Num) and va.sym is not None else None
+                        pb = to_poly(vb.sym, ren) if isinstance(vb, Num) and vb.sym is not None else None
+                        if pa is None or pb is None:
+                            if name == "sigma" and b and (pa is None) == (pb is None):
+                                continue  # the capped sigma is a join of two branches in both runs: compared by C06 R6.5 / C15 R15.1
+                            verdict, msg = "UNDECIDED", f"the {name} stored for player {who} has no term in one of the two runs"
+                            continue
+                        s = same(pa, pb)
+                        if s is False:
+                            verdict, msg = "VIOLATED", f"the posterior {name} of player {who[1]} of team {who[0]} differs between the per-call option and the model-level setting"
+                            break
+                        if s is None and verdict == "HOLDS":
+                            verdict, msg = "UNDECIDED", "terms could not be compared"
+                    if verdict == "VIOLATED":
+                        break
+                out.append(_inst("R15.6", verdict, roles, "rate", desc, msg))
+    return out
